@@ -22,6 +22,7 @@ type SolverStats struct {
 	Errors   int     `json:"errors"`
 	Seconds  float64 `json:"solver_seconds"`
 	ModelHit int     `json:"decided_by_cached_model"`
+	DomUnsat int     `json:"unsat_by_byte_domain"`
 	CrossAgree    int `json:"second_solver_agrees"`
 	CrossDisagree int `json:"second_solver_disagrees"`
 	CrossUnknown  int `json:"second_solver_unknown"`
@@ -35,6 +36,7 @@ func (a *SolverStats) add(b SolverStats) {
 	a.Errors += b.Errors
 	a.Seconds += b.Seconds
 	a.ModelHit += b.ModelHit
+	a.DomUnsat += b.DomUnsat
 	a.CrossAgree += b.CrossAgree
 	a.CrossDisagree += b.CrossDisagree
 	a.CrossUnknown += b.CrossUnknown
@@ -56,6 +58,7 @@ type Solver struct {
 	depth     int
 	lastErr   string
 	shadow    *Solver // second solver mirrored for cross-checking assertion verdicts
+	dom       *byteDom // small-domain shortcut for single-byte queries (bytedom.go)
 }
 
 func newSolver(bin string, timeoutMs int, logPath string) (*Solver, error) {
@@ -148,6 +151,7 @@ func (s *Solver) PathBegin() {
 	s.declared = map[string]bool{}
 	s.ufApps = nil
 	s.vars = nil
+	s.dom = newByteDom()
 }
 
 func (s *Solver) PathEnd() {
@@ -222,6 +226,9 @@ func (s *Solver) Assert(t *Term) {
 	}
 	s.define(t)
 	s.send("(assert " + t.ref() + ")")
+	if s.dom != nil && !domDisabled {
+		s.dom.record(t)
+	}
 }
 
 func (s *Solver) readLine() (string, error) {
@@ -265,6 +272,20 @@ func (s *Solver) Check(extra *Term, wantModel bool) (string, *Model) {
 			return "unsat", nil
 		}
 		s.define(extra)
+		if s.dom != nil && !domDisabled && s.dom.refutes(extra) {
+			s.stats.DomUnsat++
+			if !domSelfCheck {
+				return "unsat", nil
+			}
+			saved := s.dom
+			s.dom = nil
+			r, _ := s.Check(extra, false)
+			s.dom = saved
+			if r != "unsat" {
+				panic("bytedom self-check: domain says unsat, solver says " + r + " for " + extra.String())
+			}
+			return "unsat", nil
+		}
 	}
 	t0 := time.Now()
 	s.stats.Queries++
